@@ -21,6 +21,14 @@ func main() {
 		cmdVerify(os.Args[2:])
 	case "check":
 		os.Exit(cmdCheck(os.Args[2:]))
+	case "globals":
+		g, err := vc.Load("/repo")
+		if err != nil {
+			fmt.Println(err)
+			os.Exit(2)
+		}
+		g.ComputeWriteSets()
+		g.DumpGlobals()
 	default:
 		fmt.Println("unknown command")
 		os.Exit(2)
